@@ -15,11 +15,43 @@ import warnings
 
 import numpy as np
 from astropy.io import fits
+from astropy.config import ConfigItem
 
 _real_stdout = sys.stdout
 sys.stdout = sys.stderr   # astropy's logger writes INFO lines to stdout
 
+
+def global_state(with_filters=True):
+    """process-global settings the reading of survey files depends on (and that belong to the user, not to pydl)"""
+    st = {}
+    for name in sorted(dir(type(fits.conf))):
+        if isinstance(getattr(type(fits.conf), name, None), ConfigItem):
+            st['astropy.io.fits.conf.' + name] = repr(getattr(fits.conf, name))
+    st['np.geterr'] = repr(sorted(np.geterr().items()))
+    st['np.get_printoptions'] = repr(sorted(np.get_printoptions().items()))
+    st['os.environ'] = repr(sorted(os.environ.items()))
+    if with_filters:
+        st['len(warnings.filters)'] = repr(len(warnings.filters))
+    return st
+
+
+def state_diff(a, b, stage):
+    return [{'stage': stage, 'item': k, 'before': a[k][:300], 'after': b[k][:300]} for k in a if a[k] != b.get(k)]
+
+
+# this process is a fresh interpreter: import the package the way a user does, step by step, and record what the
+# imports do to the global state (third-party imports add warning filters: not compared at import, only per call)
+IMPORT_CHANGES = []
+_g0 = global_state(False)
+import pydl  # noqa: E402
+_g1 = global_state(False)
+IMPORT_CHANGES += state_diff(_g0, _g1, 'import pydl')
+import pydl.pydlspec2d  # noqa: E402
+_g2 = global_state(False)
+IMPORT_CHANGES += state_diff(_g1, _g2, 'import pydl.pydlspec2d')
 from pydl.pydlspec2d.spec1d import readspec, spec_append, spec_path  # noqa: E402
+_g3 = global_state(False)
+IMPORT_CHANGES += state_diff(_g2, _g3, 'from pydl.pydlspec2d.spec1d import readspec, spec_append, spec_path')
 
 # record every file readspec opens (spec1d calls fits.open through the module attribute)
 OPENED = []
@@ -32,15 +64,17 @@ def _recording_open(name, *a, **k):
 
 
 fits.open = _recording_open
-import pydl  # noqa: E402
 
 SCALE = 1 << 20
 ENV_KEYS = ('RUN2D', 'RUN1D', 'BOSS_SPECTRO_REDUX', 'SPECTRO_REDUX', 'SPECTRO_MATCH', 'PHOTO_RESOLVE')
 IMG_DTYPES = ['>f8', '>f8', '>i4', '>i4', '>f8', None, '>f8']   # HDU 0..6 (5 = plugmap table)
 
 
+UNSIGNED = {'UK': ('K', 'u8', 2**63), 'UJ': ('J', 'u4', 2**31), 'UI': ('I', 'u2', 2**15)}
+
+
 def table_hdu(cols):
-    """cols: list of {"name", "kind": 'J'|'K'|'D'|'A'|'5D', "rows": [[ints]]}"""
+    """cols: list of {"name", "kind": 'J'|'K'|'D'|'A'|'5D'|'UK'|'UJ'|'UI', "rows": [[ints]]}"""
     out = []
     for c in cols:
         rows = c['rows']
@@ -50,6 +84,9 @@ def table_hdu(cols):
             out.append(fits.Column(name=c['name'], format='16A', array=arr))
         elif k in ('J', 'K'):
             out.append(fits.Column(name=c['name'], format=k, array=np.array([r[0] for r in rows], dtype='i8')))
+        elif k in UNSIGNED:      # unsigned integers the standard FITS way: signed storage + TZEROn = 2^(bits-1)
+            fmt, dt, zero = UNSIGNED[k]
+            out.append(fits.Column(name=c['name'], format=fmt, bzero=zero, array=np.array([r[0] for r in rows], dtype=dt)))
         elif k == 'D':
             out.append(fits.Column(name=c['name'], format='D', array=np.array([r[0] for r in rows], dtype='f8')))
         else:   # vector column, e.g. 5D
@@ -75,12 +112,15 @@ def build_tree(tree):
         imgs = f['imgs']   # 6 images: HDU 0,1,2,3,4,6
         order = [0, 1, 2, 3, 4, None, 5]
         for h, ix in enumerate(order):
+            if f.get('truncated') and h >= 5:
+                break                         # a partial reduction: no plug-map HDU, no sky
             if ix is None:
                 t = table_hdu(f['plug'])
                 t.name = 'PLUGMAP'
                 hdus.append(t)
             else:
-                a = np.array(imgs[ix], dtype='i8').astype(IMG_DTYPES[h])
+                # unsigned 32-bit pixel masks with the top bit in use (BZERO = 2^31 is written by astropy)
+                a = np.array(imgs[ix], dtype='i8').astype('u4' if (f.get('umask') and h in (2, 3)) else IMG_DTYPES[h])
                 hdus.append(fits.PrimaryHDU(a, header=hd) if h == 0 else fits.ImageHDU(a))
         fits.HDUList(hdus).writeto(os.path.join(d, 'spPlate-%s.fits' % pm), overwrite=True)
         if f.get('zbest'):
@@ -177,6 +217,9 @@ def make_arg(x, store):
         a = np.array(vals, dtype=store[3:])
         a.flags.writeable = False
         return a, [a]
+    if store.startswith('rv:'):      # negative stride: a reversed view of a caller-owned buffer
+        big = np.array(vals[::-1], dtype=store[3:])
+        return big[::-1], [big]
     a = np.array(vals, dtype=store)
     return a, [a]
 
@@ -236,6 +279,7 @@ def leaves(r):
     return out
 
 
+POOL = {}    # caller-owned argument objects that are passed again, refilled in place, by a later call of this process
 PREV = []    # the results of the last two readspec calls of this process: (leaves, copies)
 
 
@@ -248,24 +292,36 @@ def run_call(c):
     args = {}
     st = c.get('store') or {k: c.get('dtype', 'i4') for k in ('plate', 'mjd', 'fiber')}
     watch = []
-    if c.get('mjd') is not None:
-        args['mjd'], w = make_arg(c['mjd'], st.get('mjd'))
-        watch += w
-    if c.get('fiber') is not None:
-        args['fiber'], w = make_arg(c['fiber'], st.get('fiber'))
-        watch += w
-    plate, w = make_arg(c['plate'], st.get('plate'))
-    watch += w
+    key = c.get('reuse')
+    if key is not None and key in POOL:
+        # the SAME objects as in an earlier call of this process, refilled in place by their owner (x[:] = new values)
+        objs, watch = POOL[key]
+        for name in ('mjd', 'fiber', 'plate'):
+            if c.get(name) is not None and 'a' in c[name]:
+                objs[name][:] = [int(v) for v in c[name]['a']]
+            elif c.get(name) is not None:
+                objs[name] = make_arg(c[name], st.get(name))[0]
+    else:
+        objs = {}
+        for name in ('mjd', 'fiber', 'plate'):
+            if c.get(name) is not None:
+                objs[name], w = make_arg(c[name], st.get(name))
+                watch += w
+        if key is not None:
+            POOL[key] = (objs, watch)
+    plate = objs['plate']
+    args = {k: v for k, v in objs.items() if k != 'plate'}
     snaps = [snap(o) for o in watch]
     del OPENED[:]
+    g_before = global_state()
     try:
-        with warnings.catch_warnings():
-            warnings.simplefilter('ignore')
-            r = readspec(plate, **args, **kw)
+        r = readspec(plate, **args, **kw)
     except Exception as e:  # noqa: BLE001 - the error class is the observation
         return {'err': type(e).__name__, 'msg': str(e)[:200], 'opened': list(OPENED),
+                'globals_changed': state_diff(g_before, global_state(), 'readspec call'),
                 'inputs_untouched': all(unchanged(o, s_) for o, s_ in zip(watch, snaps))}
-    out = {'keys': sorted(r.keys()), 'arrays': [], 'names': [], 'bad': [], 'opened': list(OPENED)}
+    out = {'keys': sorted(r.keys()), 'arrays': [], 'names': [], 'bad': [], 'dtypes': [], 'opened': list(OPENED),
+           'globals_changed': state_diff(g_before, global_state(), 'readspec call')}
     # caller-owned arguments bit-identical; the result shares no memory with them nor with earlier results,
     # and earlier results still hold what they held
     lv = leaves(r)
@@ -290,6 +346,8 @@ def run_call(c):
             rows = []
         out['names'].append(name)
         out['arrays'].append(rows)
+        dt = np.asarray(a).dtype
+        out['dtypes'].append('%s%d' % (dt.kind, dt.itemsize))
 
     for k in ('flux', 'invvar', 'andmask', 'ormask', 'disp', 'sky'):
         if k in r:
@@ -433,6 +491,8 @@ def run_typed(c):
 
 def main():
     payload = json.load(sys.stdin)
+    warnings.simplefilter('ignore')     # once, for the whole process (a per-call catch_warnings would undo, and so hide,
+    #                                     filters installed by the code under test)
     results = []
     for job in payload['jobs']:
         if job['kind'] == 'scenario':
@@ -452,7 +512,8 @@ def main():
             results.append([run_specpath(c) for c in job['cases']])
         else:
             results.append([run_append(c) for c in job['cases']])
-    json.dump({'pydl_file': pydl.__file__, 'results': results}, _real_stdout)
+    json.dump({'pydl_file': pydl.__file__, 'results': results, 'import_changes': IMPORT_CHANGES,
+               'global_state': global_state()}, _real_stdout)
 
 
 if __name__ == '__main__':
